@@ -451,3 +451,130 @@ def replay(data, keys, oracle=None) -> int:
             print(f"oracle: step {step}: {msg} [{tag}]")
             bad += 1
     return 1 if bad else 0
+
+
+# ------------------------------------------------------------------ hooks that use the API themselves / veto the move (oracle only)
+IDLE_CODES = {"M06", "M00", "M01", "M02", "M30", "M60", "M109", "M190", "M191", "M400"}
+
+
+def hook_sessions(rng, n):
+    """Sessions on a real builder whose move hooks are not the data-described ones of the model: a hook may call the API itself
+    (coolant / tool on and off, a comment, the emergency stop), veto the move by raising, or return parameters the move is then
+    refused for.  Yields (case, events); an event = one top-level call: {"call", "raised", "lines" (written during it), "hooks"
+    (ids of the hooks invoked, in order), "nested" ([(api, outcome)] called from inside hooks), "tool"/"cool" (reported after)}."""
+    from gscrib import GCodeBuilder
+    from gscrib.writers import BaseWriter
+    from .builder_impl import canon_stmt
+
+    class Rec(BaseWriter):
+        def __init__(self):
+            self.lines = []
+
+        def connect(self):
+            return self
+
+        def disconnect(self, wait=True):
+            pass
+
+        def flush(self):
+            pass
+
+        def write(self, b):
+            self.lines.append(canon_stmt(bytes(b).decode("utf-8").rstrip("\n")))
+
+    NESTED = {"coolant_on": lambda g: g.coolant_on("flood"), "tool_on": lambda g: g.tool_on("clockwise", 500),
+              "tool_off": lambda g: g.tool_off(), "coolant_off": lambda g: g.coolant_off(), "comment": lambda g: g.comment("from a hook"),
+              "emergency_halt": lambda g: g.emergency_halt("hook veto"), "power_off": lambda g: g.power_off()}
+    for _ in range(n):
+        r = rng
+        g = GCodeBuilder(output=None, print_lines=False, line_endings="\n")
+        w = Rec()
+        g.add_writer(w)
+        bounded = r.random() < 0.6
+        if bounded:
+            g.set_bounds("feed-rate", 100, 1000)
+        cur = {"hooks": [], "nested": []}
+        specs, fns = [], []
+        for hid in range(r.randint(1, 3)):
+            kind = r.choice(["count", "veto-once", "veto-below", "api", "api", "api-then-veto", "badF" if bounded else "count"])
+            spec = {"id": hid, "kind": kind, "api": r.choice(list(NESTED)), "at": r.randint(1, 3), "calls": 0}
+            specs.append(spec)
+
+            def make(spec):
+                def hook(origin, target, params, state):
+                    spec["calls"] += 1
+                    cur["hooks"].append(spec["id"])
+                    k = spec["kind"]
+                    below = target.z is not None and target.z < 0
+                    if k in ("api", "api-then-veto") and (below or spec["calls"] == spec["at"]):
+                        try:
+                            NESTED[spec["api"]](g)
+                            cur["nested"].append((spec["api"], "ok"))
+                        except Exception as e:  # noqa  (an interlock refusing the nested call is the API's business)
+                            cur["nested"].append((spec["api"], type(e).__name__))
+                        if k == "api-then-veto":
+                            raise RuntimeError("move vetoed by a hook")
+                    if (k == "veto-once" and spec["calls"] == spec["at"]) or (k == "veto-below" and below):
+                        raise RuntimeError("move vetoed by a hook")
+                    if k == "badF" and spec["calls"] % 2 == 0:
+                        out = dict(params)
+                        out["F"] = 5000
+                        return out
+                    return params
+                return hook
+            fn = make(spec)
+            fns.append(fn)
+            g.add_hook(fn)
+        TOP = [("move", 10), ("rapid", 2), ("move_absolute", 2), ("tool_on", 2), ("tool_off", 1), ("coolant_on", 2), ("coolant_off", 1),
+               ("pause", 2), ("wait", 2), ("tool_change", 1), ("emergency_halt", 1), ("power_on", 1)]
+        names = [t for t, k in TOP for _ in range(k)]
+        events = []
+        for _step in range(r.randint(4, 14)):
+            name = r.choice(names)
+            pt = {a: r.randint(-160, 160) / 16 for a in r.sample("xyz", r.randint(1, 3))}
+            cur["hooks"], cur["nested"] = [], []
+            n0 = len(w.lines)
+            call, raised = name, None
+            try:
+                if name in ("move", "rapid", "move_absolute"):
+                    kw = {"F": r.choice([200, 500, 900])} if r.random() < 0.4 else {}
+                    call = f"{name} {pt} {kw}"
+                    getattr(g, name)(**pt, **kw)
+                elif name == "tool_on":
+                    g.tool_on("clockwise", 1000)
+                elif name == "power_on":
+                    g.power_on("constant", 50)
+                elif name == "coolant_on":
+                    g.coolant_on("mist")
+                elif name == "tool_change":
+                    g.tool_change("manual", 2)
+                elif name == "emergency_halt":
+                    g.emergency_halt("stop")
+                else:
+                    getattr(g, name)()
+            except Exception as e:  # noqa
+                raised = type(e).__name__
+            events.append({"call": call, "name": name, "raised": raised, "lines": w.lines[n0:], "hooks": list(cur["hooks"]),
+                           "nested": list(cur["nested"]), "tool": bool(g.state.is_tool_active), "cool": bool(g.state.is_coolant_active),
+                           "registered": [s["id"] for s in specs]})
+        case = {"hooks": [{k: v for k, v in s.items() if k != "calls"} for s in specs], "feed_bounds": bounded,
+                "calls": [e["call"] + (f" -> {e['raised']}" if e["raised"] else "") for e in events]}
+        yield case, events, specs
+
+
+def unsafe_lines(lines, tool=False, cool=False):
+    """first emitted line that a controller whose tool / coolant flags follow M03 M04 M05 / M07 M08 M09 must not see"""
+    for ln in lines:
+        codes = set(ln.split(","))
+        ts, cs = bool({"M03", "M04"} & codes), bool({"M07", "M08"} & codes)
+        if (ts and tool) or (cs and cool) or ((IDLE_CODES & codes) and (tool or cool)):
+            return ln, tool, cool
+        if ts:
+            tool = True
+        if "M05" in codes:
+            tool = False
+        if cs:
+            cool = True
+        if "M09" in codes:
+            cool = False
+    return None
